@@ -154,6 +154,10 @@ def compare(it, op, a, b):
             return r
         return (not r) if isinstance(r, bool) else mk_bool(neg(r.e))
     o = _CMP[t]
+    if isinstance(a, Ptr) and isinstance(b, Ptr):
+        if a.arr is not b.arr:
+            raise Unsupported("comparison of pointers into different objects")
+        return V.int_cmp(o, a.off, b.off)
     setlike = (ISet, set, frozenset)
     if isinstance(a, setlike) and isinstance(b, setlike) and (isinstance(a, ISet) or isinstance(b, ISet)):
         if o == "<=":
@@ -170,6 +174,9 @@ def compare(it, op, a, b):
         else:
             e = {"<": z3.ULT(x, y), "<=": z3.ULE(x, y), ">": z3.UGT(x, y), ">=": z3.UGE(x, y)}[o]
         return mk_bool(e)
+    if isinstance(a, V.SReal) or isinstance(b, V.SReal):
+        x, y = V.zr(a), V.zr(b)
+        return mk_bool({"<": x < y, "<=": x <= y, ">": x > y, ">=": x >= y}[o])
     if isinstance(a, SFloatTab) or isinstance(b, SFloatTab):
         return V.float_tab_cmp(o, a, b)
     if isinstance(a, (SInt, SBool)) or isinstance(b, (SInt, SBool)):
@@ -326,6 +333,11 @@ def binop(it, op, a, b, aug=False):
         if f is None:
             raise Unsupported("bit-vector operator " + t.__name__)
         return V.mk_bv(f(), w, sg)
+    # exact reals (summation of table entries)
+    if isinstance(a, V.SReal) or isinstance(b, V.SReal):
+        if t is ast.Add and isinstance(a, (V.SReal, float, int)) and isinstance(b, (V.SReal, float, int)):
+            return V.SReal(V.zr(a) + V.zr(b))
+        raise Unsupported("real arithmetic %s" % t.__name__)
     # floats
     if isinstance(a, float) or isinstance(b, float):
         f, i = (a, b) if isinstance(a, float) else (b, a)
@@ -607,6 +619,21 @@ def getitem(it, obj, idx):
         for c, x in reversed(outs[:-1]):
             v = merge(c, x, v)
         return v
+    if isinstance(obj, V.RealTable):
+        n = len(obj.values)
+        if not isinstance(idx, SInt):
+            if 0 <= idx < n:
+                return obj.values[idx]
+            it.oblige(False, "out-of-bounds read %s[%d]" % (obj.name, idx), "bounds")
+            return 0.0
+        lo, hi = V.bounds(idx)
+        if lo is None or hi is None or lo < 0 or hi >= n:
+            it.oblige(z3.And(idx.e >= 0, idx.e < n), "out-of-bounds read of %s (size %d)" % (obj.name, n), "bounds")
+        if not getattr(it.ctx, "_tab_" + obj.name, False):
+            setattr(it.ctx, "_tab_" + obj.name, True)
+            for ax in obj.axioms():
+                it.ctx.assume(ax)
+        return V.SReal(obj.fn(idx.e))
     if isinstance(obj, Ptr):
         if obj.arr is None:
             it.oblige(False, "NULL pointer dereference", "bounds")
